@@ -3,11 +3,12 @@ From Coq Require Extraction.
 From Coq Require Import ExtrOcamlBasic.
 From Coq Require Import List ZArith NArith.
 From Coq.Strings Require Import Byte.
-From Muduo Require Import Base_Bytes C10_Model C18_Model C18_EncModel C18_HttpSrvModel C19_Model C19_Wire.
+From Muduo Require Import Base_Bytes C10_Model C18_Model C18_EncModel C18_OldCodec C18_HttpSrvModel C19_Model C19_Wire.
 Extraction "model.ml" C18_Model.codec_feed C18_Model.codec_init C18_Model.encode
   C18_Model.raw_ser C18_Model.raw_parse C18_Model.adler32
   C18_Model.http_feed C18_Model.http_init
   C18_EncModel.fillEmptyBuffer C18_EncModel.deliver C18_EncModel.conn0
+  C18_OldCodec.ocodec_feed C18_OldCodec.ocodec_init C18_OldCodec.oencode
   C10_Model.new_buf C10_Model.readable C10_Model.readableBytes C10_Model.writableBytes C10_Model.prependableBytes
   C18_HttpSrvModel.srv_deliver C18_HttpSrvModel.sconn0 C18_HttpSrvModel.demo_callback
   C18_HttpSrvModel.response_bytes C18_HttpSrvModel.ref_parse_response
